@@ -40,7 +40,7 @@ def replyToks : Reply → List String
   | .attr a => "ok" :: attrToks a
   | .handle fh a => "ok" :: toHex fh :: attrToksShort a
   | .access bits => ["ok", toString bits]
-  | .data n eof bytes => ["ok", toString n, b01 eof, toHex bytes]
+  | .data n eof bytes => ["ok", toString n, b01 eof, toHexD bytes]
   | .written n c sz => ["ok", toString n, toString c, toString sz]
   | .done => ["ok"]
   | .listing eof es => ["ok", b01 eof, if es.isEmpty then "-" else ",".intercalate (es.map entryTok)]
